@@ -293,9 +293,7 @@ impl<D: DataMut> ReaderFrom for ScalarZnx<D> {
         let len: usize = reader.read_u64::<LittleEndian>()? as usize;
 
         // Checked: the header is untrusted and the product may not fit a usize.
-        let expected_len: Option<usize> = new_n
-            .checked_mul(new_cols)
-            .and_then(|x| x.checked_mul(size_of::<i64>()));
+        let expected_len: Option<usize> = new_n.checked_mul(new_cols).and_then(|x| x.checked_mul(size_of::<i64>()));
         if expected_len != Some(len) {
             return Err(std::io::Error::new(
                 std::io::ErrorKind::InvalidData,
